@@ -7,6 +7,7 @@ import (
 	"path"
 	"path/filepath"
 	"strconv"
+	"strings"
 	"sync"
 
 	"go.uber.org/zap"
@@ -166,6 +167,13 @@ func (d *Directory) AddTimeBucket(tbk *io.TimeBucketKey, f *io.TimeBucketInfo) (
 
 	catkeySplit := tbk.GetCategories()
 	datakeySplit := tbk.GetItems()
+
+	// every item becomes a directory name below the root: it must not be able to leave it
+	for _, item := range datakeySplit {
+		if item == "" || item == "." || item == ".." || strings.ContainsAny(item, `/\`) {
+			return fmt.Errorf("invalid item %q in time bucket key %s", item, tbk.String())
+		}
+	}
 
 	dirname := d.GetPath()
 	for i, dataDirName := range datakeySplit {
